@@ -26,7 +26,8 @@ from ..backend_pipes import PIPES
 BASE = {"fft": "fftw", "effort": "FFTW_MEASURE", "threads": 1, "precision": "float32"}
 KEYMAP = {"fft": "fft", "effort": "fftw.planning_effort", "threads": "fftw.threads", "precision": "precision"}
 CLASS = {
-    "transform": ["interpolate_images", "diffraction_interpolate", "apply_ctf_image", "potential_infinite", "fft_helpers"],
+    "transform": ["interpolate_images", "diffraction_interpolate", "apply_ctf_image", "potential_infinite", "fft_helpers", "waves_transforms_then_reuse",
+                  "images_transforms_then_reuse"],
     "roundtrip_in_place": ["fft2_roundtrip_and_convolve", "gaussian_filter_images", "probe_scan_annular", "potential_finite"],
     "two_shapes": ["planewave_diffraction", "prism_scan", "interpolate_images", "diffraction_interpolate"],
     "propagate": ["propagate_vacuum", "exit_waves_frozen_phonons", "probe_scan_flexible_lazy", "center_of_mass"],
